@@ -53,7 +53,7 @@ impl EvalStage {
     pub fn increment(self) -> EvalStage {
         match self {
             EvalStage::Persistent => EvalStage::Persistent, // Persistent stays persistent
-            EvalStage::Stage(n) => EvalStage::Stage(n + 1),
+            EvalStage::Stage(n) => EvalStage::Stage(n.saturating_add(1)), // no overflow panic (or wrap to stage 0) at 255 nested quotes
         }
     }
 
